@@ -1,6 +1,6 @@
 # Sizing and claim for C11 (see props/__init__.py)
 SPEC = {
-        "quick": {"rc_cases": 60000, "rc_procs": 12, "enum": True},
+        "quick": {"rc_cases": 100000, "rc_procs": 14, "enum": True},
         "thorough": {"rc_cases": 250000, "rc_procs": 16, "enum": True},
         "claim": {
             "category": "exploration",
